@@ -89,8 +89,8 @@ CloseOK(snaps) == AsFinal(snaps).res # "panic"
 (***************************************************************************)
 (* Part 2 (C20): round transitions of a chain.                             *)
 (*                                                                         *)
-(* Chains are 1..NC (a parameter of the operators).  A round REFERENCE is  *)
-(* a record [k, c, n]:                                                     *)
+(* Chains are 1..NC (the domain of G.num).  A round REFERENCE is a record  *)
+(* [k, c, n]:                                                              *)
 (*    k = "F": the hash of final round n of chain c (known to the store    *)
 (*             exactly when n < num[c]; otherwise an unknown hash),        *)
 (*    k = "H": the identifier of chain c itself.  The store keeps the HEAD *)
@@ -103,39 +103,85 @@ CloseOK(snaps) == AsFinal(snaps).res # "panic"
 (*    ext[c]   external reference of the head round                        *)
 (*    has[c]   the head round holds at least one snapshot                  *)
 (*    dl[c][x] durable link LINK/<c,x>, ml[c][x] ChainState.RoundLinks     *)
+(*    era[c]   sequence: era[c][n+1] = time era of the start of final      *)
+(*             round n of chain c; hera[c] era of the head round's         *)
+(*             snapshot (0 when the head is empty)                          *)
+(*    late     the clock has jumped to era 1                                *)
+(*    order    the chains in the order of NodesListWithoutState             *)
+(*                                                                         *)
+(* Time for the "too early" rule: the start of round n of a chain is        *)
+(* era*EraJump + n ticks of 10 s; era 1 is six hours after era 0.  The      *)
+(* reference threshold (SnapshotSyncRoundThreshold*gap*64 = 19200 s) is     *)
+(* 1920 ticks, the history threshold (SnapshotReferenceThreshold*gap*64 =   *)
+(* 1920 s) is 192 ticks; round numbers stay far below both.                 *)
 (***************************************************************************)
+
+EraJump     == 2160
+SyncWindow  == 1920
+HistWindow  == 192
 
 FRef(c, n) == [k |-> "F", c |-> c, n |-> n]
 HRef(c)    == [k |-> "H", c |-> c, n |-> 0]
 URef       == [k |-> "U", c |-> 0, n |-> 0]
 
+ChainsOf(G) == DOMAIN G.num
+
+StartOf(G, x, n) == G.era[x][n + 1] * EraJump + n
+
 \* persistStore.ReadRound(reference)
 Lookup(G, r) ==
-    IF r.k = "F" /\ r.c \in DOMAIN G.num /\ r.n < G.num[r.c]
+    IF r.k = "F" /\ r.c \in ChainsOf(G) /\ r.n < G.num[r.c]
       THEN [found |-> TRUE, node |-> r.c, number |-> r.n, head |-> FALSE]
-    ELSE IF r.k = "H" /\ r.c \in DOMAIN G.num
+    ELSE IF r.k = "H" /\ r.c \in ChainsOf(G)
       THEN [found |-> TRUE, node |-> r.c, number |-> G.num[r.c], head |-> TRUE]
     ELSE [found |-> FALSE, node |-> 0, number |-> 0, head |-> FALSE]
 
-\* Chain.updateExternal(final, external, roundTime, strict): "ok" | "err" | "panic".
-\* early: roundTime is before the start of the referenced final round.
-\* The "too early against the best round" test needs final rounds more than 5 hours apart and is
-\* outside the explored time window.  (Head records never get here: they are refused before.)
-\* The code aborts when the durable link and ChainState.RoundLinks disagree.
-ExtCheck(G, c, e, early, strict) ==
-    IF e.node = c THEN "err"
-    ELSE IF e.number < G.ml[c][e.node] THEN "err"
-    ELSE IF G.dl[c][e.node] # G.ml[c][e.node] THEN "panic"
-    ELSE IF strict /\ ( \/ early
-                       \/ (~G.has[e.node] /\ G.num[e.node] = e.number + 1 /\ e.number > 0) ) THEN "err"
-    ELSE "ok"
+\* ChainState.RoundHistory of chain x after reduceHistory: the final rounds that started less than
+\* the history window before the last one (at most ten; round counts stay below that)
+History(G, x) == { n \in 0..(G.num[x] - 1) : StartOf(G, x, n) + HistWindow > StartOf(G, x, G.num[x] - 1) }
+
+\* checkReferenceSanity(ec, round n of x, roundTime) for a final round and roundTime = now
+\* (all chains are genesis chains, nothing starts in the future)
+NoExtraFinal(G, x, n) == ~G.has[x] /\ G.num[x] = n + 1 /\ n > 0
+
+\* determineBestRound(now) of chain c: a fold over the other chains in node order
+RECURSIVE BestFold(_, _, _, _)
+BestFold(G, c, i, acc) ==
+    IF i > Len(G.order) THEN acc
+    ELSE LET x     == G.order[i]
+             since == { n \in History(G, x) : n >= G.ml[c][x] }
+             h0    == CHOOSE n \in since : \A m \in since : n <= m
+             rts   == StartOf(G, x, h0)
+             rh    == Cardinality(since)
+         IN IF x = c \/ since = {} \/ NoExtraFinal(G, x, h0) THEN BestFold(G, c, i + 1, acc)
+            ELSE IF rh > acc.height \/ rts > acc.start
+                 THEN BestFold(G, c, i + 1, [found |-> TRUE, start |-> rts, height |-> rh])
+                 ELSE BestFold(G, c, i + 1, acc)
+
+BestRound(G, c) == BestFold(G, c, 1, [found |-> FALSE, start |-> 0, height |-> 0])
+
+\* Chain.updateExternal(final, external, roundTime, strict) for a FINAL external round e:
+\* "ok", or the reason of the refusal ("linkpanic" is an abort, the others are errors).
+\* early: roundTime is before the start of the referenced round.
+ExtWhy(G, c, e, early, strict) ==
+    IF e.node = c THEN "ownchain"
+    ELSE IF e.number < G.ml[c][e.node] THEN "backlink"
+    ELSE IF G.dl[c][e.node] # G.ml[c][e.node] THEN "linkpanic"
+    ELSE IF ~strict THEN "ok"
+    ELSE IF early THEN "early"
+    ELSE IF NoExtraFinal(G, e.node, e.number) THEN "nofinal"
+    ELSE LET b == BestRound(G, c) IN
+         IF b.found /\ StartOf(G, e.node, e.number) + SyncWindow < b.start THEN "tooearly"
+         ELSE "ok"
+
+ResOf(why) == IF why = "ok" THEN "ok" ELSE IF why = "linkpanic" THEN "panic" ELSE "err"
 
 SetExt(G, c, r, e) ==
     [G EXCEPT !.ext[c] = r, !.dl[c][e.node] = e.number, !.ml[c][e.node] = e.number]
 
 \* startNewRoundAndPersist(cache, references, timestamp, finalized)
 \*   o = [c, self, ext, early, fin]; self in {"good" (hash of the closed head round), "stale", "bogus"}
-\* result [res, dummy, G]
+\* result [res, why, dummy, G]
 \* A reference that resolves to a HEAD round record (a chain identifier) is refused on both paths
 \* ("external round ... is not final").
 \* An unknown external on the finalized path starts the round with the PREVIOUS external reference
@@ -145,50 +191,67 @@ StartRound(G, o) ==
     LET c == o.c
         e == Lookup(G, o.ext)
         p == Lookup(G, G.ext[c])
-        fail(x) == [res |-> x, dummy |-> FALSE, G |-> G]
-        adv(H) == [H EXCEPT !.num[c] = @ + 1, !.has[c] = FALSE]
-        x == ExtCheck(G, c, e, o.early, ~o.fin)
+        fail(y) == [res |-> ResOf(y), why |-> y, dummy |-> FALSE, G |-> G]
+        adv(H) == [H EXCEPT !.num[c] = @ + 1, !.has[c] = FALSE,
+                            !.era[c] = Append(@, G.hera[c]), !.hera[c] = 0]
+        y == ExtWhy(G, c, e, o.early, ~o.fin)
     IN
-    IF ~G.has[c] THEN fail("err")                  \* nothing collected: asFinal() = nil
-    ELSE IF o.self # "good" THEN fail("err")
+    IF ~G.has[c] THEN fail("nosnap")               \* nothing collected: asFinal() = nil
+    ELSE IF o.self # "good" THEN fail("self")
     ELSE IF ~e.found THEN
-         IF o.fin THEN [res |-> "ok", dummy |-> TRUE, G |-> adv([G EXCEPT !.dl[c][p.node] = p.number])]
-         ELSE fail("err")
-    ELSE IF e.head THEN fail("err")
-    ELSE IF x # "ok" THEN fail(x)
-    ELSE [res |-> "ok", dummy |-> FALSE, G |-> adv(SetExt(G, c, o.ext, e))]
+         IF o.fin THEN [res |-> "ok", why |-> "dummy", dummy |-> TRUE,
+                        G |-> adv([G EXCEPT !.dl[c][p.node] = p.number])]
+         ELSE fail("unknown")
+    ELSE IF e.head THEN fail("head")
+    ELSE IF y # "ok" THEN fail(y)
+    ELSE [res |-> "ok", why |-> "ok", dummy |-> FALSE, G |-> adv(SetExt(G, c, o.ext, e))]
 
 \* updateEmptyHeadRoundAndPersist(final, cache, references, timestamp, strict)
 \*   o = [c, self, ext, early, strict]; self in {"same", "other"}
 UpdateHead(G, o) ==
     LET c == o.c
         e == Lookup(G, o.ext)
-        fail(x) == [res |-> x, dummy |-> FALSE, G |-> G]
-        x == ExtCheck(G, c, e, o.early, o.strict)
+        fail(y) == [res |-> ResOf(y), why |-> y, dummy |-> FALSE, G |-> G]
+        y == ExtWhy(G, c, e, o.early, o.strict)
     IN
-    IF G.has[c] THEN fail("err")
-    ELSE IF o.self # "same" THEN fail("err")
-    ELSE IF ~e.found THEN fail("err")
-    ELSE IF e.head THEN fail("err")
-    ELSE IF x # "ok" THEN fail(x)
-    ELSE [res |-> "ok", dummy |-> FALSE, G |-> SetExt(G, c, o.ext, e)]
+    IF G.has[c] THEN fail("notempty")
+    ELSE IF o.self # "same" THEN fail("self")
+    ELSE IF ~e.found THEN fail("unknown")
+    ELSE IF e.head THEN fail("head")
+    ELSE IF y # "ok" THEN fail(y)
+    ELSE [res |-> "ok", why |-> "ok", dummy |-> FALSE, G |-> SetExt(G, c, o.ext, e)]
 
-\* a snapshot finalized into the head round (Chain.AddSnapshot)
-AddSnap(G, c) == [G EXCEPT !.has[c] = TRUE]
+\* a snapshot finalized into the head round (Chain.AddSnapshot), stamped with the current era
+AddSnap(G, c) == [G EXCEPT !.has[c] = TRUE, !.hera[c] = IF G.late THEN 1 ELSE 0]
+
+\* the clock jumps six hours ahead (nothing happens on any chain meanwhile)
+Jump(G) == [G EXCEPT !.late = TRUE]
 
 ApplyOp(G, o) ==
     CASE o.op = "Start"  -> StartRound(G, o)
       [] o.op = "Update" -> UpdateHead(G, o)
-      [] o.op = "Add"    -> [res |-> "ok", dummy |-> FALSE, G |-> AddSnap(G, o.c)]
+      [] o.op = "Add"    -> [res |-> "ok", why |-> "ok", dummy |-> FALSE, G |-> AddSnap(G, o.c)]
+      [] o.op = "Jump"   -> [res |-> "ok", why |-> "ok", dummy |-> FALSE, G |-> Jump(G)]
+
+InitGraph(NC, order) ==
+    [ num |-> [c \in 1..NC |-> 1],
+      ext |-> [c \in 1..NC |-> FRef((c % NC) + 1, 0)],
+      has |-> [c \in 1..NC |-> FALSE],
+      dl  |-> [c \in 1..NC |-> [x \in 1..NC |-> 0]],
+      ml  |-> [c \in 1..NC |-> [x \in 1..NC |-> 0]],
+      era |-> [c \in 1..NC |-> <<0>>],
+      hera |-> [c \in 1..NC |-> 0],
+      late |-> FALSE,
+      order |-> order ]
 
 (***************************************************************************)
 (* Property C20, as a predicate on one observed step of chain o.c:          *)
 (* G before, result, G2 after.                                              *)
 (***************************************************************************)
-KnownFinalOther(G, c, r) == r.k = "F" /\ r.c \in DOMAIN G.num /\ r.c # c /\ r.n < G.num[r.c]
+KnownFinalOther(G, c, r) == r.k = "F" /\ r.c \in ChainsOf(G) /\ r.c # c /\ r.n < G.num[r.c]
 
 LinksForward(G, G2, c) ==
-    \A x \in DOMAIN G.num : G2.dl[c][x] >= G.dl[c][x] /\ G2.ml[c][x] >= G.ml[c][x]
+    \A x \in ChainsOf(G) : G2.dl[c][x] >= G.dl[c][x] /\ G2.ml[c][x] >= G.ml[c][x]
 
 \* selfOK: the new head's self reference is the hash of the round just closed (observed)
 StepOK20(G, o, res, selfOK, G2) ==
@@ -207,13 +270,6 @@ StepOK20(G, o, res, selfOK, G2) ==
                 /\ LinksForward(G, G2, c)
            ELSE G2 = G
       [] OTHER -> TRUE
-
-\* the reference of the head round of every chain other than those never moved:
-\* a known final round of another chain, and the links agree with it
-StateOK20(G) ==
-    \A c \in DOMAIN G.num :
-        /\ KnownFinalOther(G, c, G.ext[c])
-        /\ \A x \in DOMAIN G.num : G.dl[c][x] = G.ml[c][x]
 
 (***************************************************************************)
 (* History: before commit 1bb41c2 of the repository the finalized path      *)
